@@ -50,8 +50,10 @@ def run_solver(P, footprint, analytic, halo="given", precision="double", ctx="ge
         facts = Facts()
     if levels_kind == "array":
         facts.refine(S.levels.val, {"+", "0"})  # S-SIG: output levels are grid indices 0 .. nz-1
+        facts.refine(S.levels.val - S.nz, {"-"})
     else:
         facts.refine(S.levels, {"+", "0"})
+        facts.refine(S.levels - S.nz, {"-"})
 
     def make(dec):
         return Interp(P, dec, ctx=ctx, facts=facts, stubs=stubs)
